@@ -158,7 +158,16 @@ pub struct Seen {
 
 static SEEN: Mutex<Vec<Seen>> = Mutex::new(Vec::new());
 
+/// Directories no request confined to a workspace has any business listing, and kernel message
+/// files whose read blocks for ever: an open for reading of one of these is recorded and refused
+/// (EACCES), so that a traversal that escaped to the file-system root is an observation instead
+/// of a hang on `/proc/kmsg`.
+pub fn is_system_listing(normalized: &str) -> bool {
+    matches!(normalized, "/" | "/proc" | "/sys" | "/dev" | "/etc" | "/home" | "/root" | "/usr" | "/var" | "/boot" | "/opt" | "/srv" | "/mnt" | "/media" | "/proc/kmsg" | "/dev/kmsg")
+}
+
 fn monitor_handler(_actor: i32, e: &Effect) -> Decision {
+    let refuse = e.kind == seam::EffectKind::OpenRead && is_system_listing(&normalize(&e.path));
     if let Ok(mut g) = SEEN.lock() {
         if g.len() < 100_000 {
             g.push(Seen {
@@ -167,6 +176,9 @@ fn monitor_handler(_actor: i32, e: &Effect) -> Decision {
                 path2: e.path2.clone(),
             });
         }
+    }
+    if refuse {
+        return Decision::Fail(libc::EACCES);
     }
     Decision::Proceed
 }
